@@ -350,6 +350,7 @@ def queries(tier):
                         split=['x0'], timeout=600, witnesses=[({'k': 2, '_fixed': {'o0': 1}}, w)],
                         bound='every pre-state, remove_asset of every slot, then re-adding the removed id and name with duplicates forbidden'))
     return qs + [Query(name='hist', body=body_hist, params=ps, cubes=[{'k': k}], split=['o0', 'x0'] if k == 1 else ['o0', 'o1'],
+                       pre=[] if k == 1 else ['x2 and att'],
                   timeout=600 if tier == 'quick' else 1700, witnesses=wit,
                   bound='language L_MINI (type N, self-association PQ(p,q)); pre-state from 6 bits (third asset, links 0-1, 1-2, self-link 0-0, one association '
                         'holding two assets in one field, attacker with an entry point), built through the API; then every sequence of %d operation(s) from %s '
